@@ -4,7 +4,7 @@ import os
 import sys
 import z3
 sys.path.insert(0, os.path.dirname(os.path.dirname(os.path.abspath(__file__))))
-from props.common import main, Run, run_child, ALL_SIDECARS  # noqa: E402
+from props.common import witnesses_for, failure_name, main, Run, run_child, ALL_SIDECARS  # noqa: E402
 from props.opcodes import opcode_contracts, frame_contracts  # noqa: E402
 from props.analyses import analysis_contracts  # noqa: E402
 from props.c09 import STATE_FNS, RUNTIME_FNS, trace_back_edge, trace_exit  # noqa: E402
@@ -51,6 +51,39 @@ def scans(run):
             if isinstance(n, _ast.Call) and isinstance(n.func, _ast.Name) and n.func.id in ("id", "hash"):
                 run.syntactic(f"{m}:{n.lineno}:determinism:no-{n.func.id}", "type", False, _ast.unparse(n)[:80], where=f"{m}.py:{n.lineno}",
                               meta={"clause": "no id()/hash() value reaches an output"})
+    # state that outlives a call or an object: the answers are functions of the bytes alone only if nothing in the queries' code keeps any
+    from props import statescan
+    mods = ("fickle", "analysis", "tracing")
+    quals = [q for q in run.repo.qual if q.split(".")[0] in mods]
+    n_sites = 0
+    for q, line, kind, text in statescan.sites(run.repo, quals):
+        n_sites += 1
+        registration = q.endswith(".__init_subclass__") and kind in ("module-object-mutation", "class-attribute-write", "class-object-mutation")
+        singleton = q == "analysis.AnalyzerMeta.default_instance" and kind == "class-attribute-write" and "_DEFAULT_INSTANCE" in text
+        ok = registration or singleton
+        why = ("runs when a class is defined (import time), not when a pickle is queried" if registration else
+               "the default Analyzer is created once; an Analyzer holds its tuple of analyses and nothing else (its fields are checked below)" if singleton else
+               f"{kind}: state kept across calls — an answer may then depend on what was asked before")
+        run.syntactic(f"{q}:state:{kind}@{line}", "frame", ok, f"{text} — {why}", where=f"{q}:{line}",
+                      meta={"clause": "no state outlives a query: no global re-binding, no mutation of module / class level objects, no memoisation", "weak": not ok})
+    run.syntactic("determinism:state-scan-completed", "frame", True, f"{len(quals)} functions of {mods} scanned, {n_sites} site(s)", where="fickle, analysis, tracing",
+                  meta={"clause": "scan completed"})
+    # the singleton Analyzer must stay stateless: fields assigned in Analyzer / Analysis subclasses' __init__ are the analyses tuple only
+    for cq, cdef in run.repo.classes_src.items():
+        if cq.split(".")[0] != "analysis":
+            continue
+        is_analysis = cq == "analysis.Analyzer" or any(b in ("analysis.Analysis",) for b in run.repo.cls(cq)["mro"][1:]) if run.repo.has_class(cq) else False
+        if not is_analysis:
+            continue
+        for fn in [n for n in cdef.body if isinstance(n, _ast.FunctionDef)]:
+            for n in _ast.walk(fn):
+                if isinstance(n, (_ast.Assign, _ast.AnnAssign, _ast.AugAssign)):
+                    for t in (n.targets if isinstance(n, _ast.Assign) else [n.target]):
+                        if isinstance(t, _ast.Attribute) and isinstance(t.value, _ast.Name) and t.value.id == "self":
+                            ok = (cq, t.attr) in (("analysis.Analyzer", "analyses"),)
+                            run.syntactic(f"{cq}.{fn.name}:state:field-{t.attr}@{n.lineno}", "frame", ok, _ast.unparse(n)[:90], where=f"{cq}.{fn.name}:{n.lineno}",
+                                          meta={"clause": "the process-wide default Analyzer and the registered analyses (Analysis.ALL instances) hold no per-query state",
+                                                "weak": not ok})
     # iteration over sets: allowed only where what is produced is consumed as a set / by key
     mod, fn = run.repo.function("fickle.Interpreter.unused_assignments")
     src = _ast.unparse(fn)
@@ -113,7 +146,8 @@ def make_replayer(run):
             parts = o.name.split(".")
             cls = "fickle." + parts[1] if len(parts) > 1 else ""
             names = [n.lower() for n, c in run.repo.live["OPCODES_BY_NAME"].items() if c == cls]
-            mine = [f for f in d["failures"] if names and names[0] in f["program"]] or (d["failures"] if not names else [])
+            fls = witnesses_for("C13", o, d["failures"], lambda f: failure_name("determinism_diff", f))
+            mine = [f for f in fls if names and names[0] in f["program"]] or (fls if not names else [])
             if mine:
                 f = mine[0]
                 return {"reproduced": True, "failing_input_hex": f["bytes"], "program": f["program"], "when": f["when"], "differs": f["differs"],
